@@ -3,3 +3,4 @@ import MtailVerif.Props.C18
 #print axioms MtailVerif.C18.inv_step
 #print axioms MtailVerif.C18.never_two_streams_per_path
 #print axioms MtailVerif.C18.append_delivers_once
+#print axioms MtailVerif.C18.pending_settled_at_poll
